@@ -92,6 +92,23 @@ pub fn par_local(chunks: usize, f: impl Fn(usize, usize) -> Partial + Sync) -> P
     merged
 }
 
+/// Run one scenario of a check. If it unwinds because it asked for the state of a node whose
+/// actor thread had died (panicked, or stuck inside one loop iteration) at a point where the
+/// scenario had not looked for that, the death is reported as a violation of the check's
+/// property with the scenario's replay object, instead of taking the whole worker down.
+pub fn guard_dead_actor(out: &mut Partial, what: &str, replay: Value, f: impl FnOnce(&mut Partial)) {
+    let r = quiet(|| std::panic::catch_unwind(std::panic::AssertUnwindSafe(|| f(&mut *out))));
+    if let Err(p) = r {
+        match p.downcast::<crate::sim::DeadActor>() {
+            Ok(d) => {
+                // the world of the aborted scenario was dropped while unwinding
+                out.violation(format!("actor-died/{what}"), format!("{what}: the actor thread of node {} {}", d.node, d.why), replay);
+            }
+            Err(other) => std::panic::resume_unwind(other),
+        }
+    }
+}
+
 /// Run a closure catching panics; returns the panic message on panic.
 pub fn catch<R>(f: impl FnOnce() -> R) -> Result<R, String> {
     std::panic::catch_unwind(std::panic::AssertUnwindSafe(f)).map_err(|p| {
